@@ -259,6 +259,11 @@ type Kernel struct {
 	Latency         time.Duration
 	// PsLatency (nanoseconds) is added to requests on the periodic server's connection only; atomic because scripts change it while the kernel serves.
 	PsLatency atomic.Int64
+	// PsHold: requests on the periodic server's connection are held (PsHeld counts them) until the flag is cleared.
+	PsHold atomic.Bool
+	PsHeld atomic.Int64
+	// MultiErrIfMissing: a multi-URR usage query naming a URR that no longer exists is answered ENOENT as a whole instead of skipping it.
+	MultiErrIfMissing atomic.Bool
 	// Fail, when set, decides the errno (0 = proceed) of a request before it takes effect.
 	Fail func(r *Request) int
 	// UsageFor overrides the usage returned for a URR.
@@ -319,6 +324,13 @@ func (k *Kernel) serve(c *Conn, name string) {
 		}
 		if d := k.PsLatency.Load(); d > 0 && name == "ps" {
 			time.Sleep(time.Duration(d))
+		}
+		if name == "ps" && k.PsHold.Load() {
+			// the harness owns the schedule: the request stays inside the data plane until it is released (30 s at most)
+			k.PsHeld.Add(1)
+			for i := 0; i < 300000 && k.PsHold.Load() && !k.closed.Load(); i++ {
+				time.Sleep(100 * time.Microsecond)
+			}
 		}
 		reply := k.handle(name, append([]byte(nil), buf[:n]...))
 		if reply != nil {
@@ -517,6 +529,9 @@ func (k *Kernel) apply(r *Request) (reply []byte, errno int) {
 			}
 			key := RuleKey{"URR", sa.U64(), uint64(ida.U32())}
 			if _, ok := k.Rules[key]; !ok {
+				if k.MultiErrIfMissing.Load() {
+					return nil, int(syscall.ENOENT) // the other behaviour a data plane may show: the query fails as a whole
+				}
 				continue
 			}
 			urs = append(urs, EncodeUR(key.SEID, uint32(key.ID), k.usage("multi", key))...)
